@@ -9,7 +9,8 @@ from pyvc.values import Obj, SV, INT, BOOL, STR, OBJ, SEQ, TUP, class_of, strval
 from pyvc.engine import And, Or, Not, Implies, I
 from pyvc import builtins_model as bm
 
-m_regex = z3.Function("m_regex", Obj, z3.StringSort())      # the (unwrapped) pattern a window match was made with
+m_regex = z3.Function("m_regex", Obj, z3.StringSort())
+re_nullable = z3.Function("re_nullable", z3.StringSort(), z3.BoolSort())     # the pattern matches the empty string      # the (unwrapped) pattern a window match was made with
 
 
 def _off(offs, i):
@@ -77,6 +78,11 @@ def _m_regex(e, st, m):
     return SV(STR, m_regex(m.v))
 
 
+@spec("re_nullable")
+def _re_nullable(e, st, r):
+    return SV(BOOL, re_nullable(r.v))
+
+
 @spec("prefix_of")
 def _prefix_of(e, st, a, b):
     return SV(BOOL, z3.PrefixOf(a.v, b.v))
@@ -110,6 +116,8 @@ def _on_re_match(e, st, m, fname, pat, text, kw):
         zero = z3.StringVal("0")
         if z3.is_string_value(a0) and a0.as_string() == "^(?:" and z3.is_string_value(a2) and a2.as_string() == ")":
             st.assume(Implies(Not(m.none), And(bm.m_gstart(m.v, zero) == 0, m_regex(m.v) == a1)))
+            # a pattern that matches the empty string, anchored at the start, matches every text
+            st.assume(Implies(re_nullable(a1), Not(m.none)))
             e.trust("E-RE-ANCHOR: a match of ^(?:R) starts at 0; a match of (?:R)$ ends at len(text) or just before a final newline")
         if z3.is_string_value(a0) and a0.as_string() == "(?:" and z3.is_string_value(a2) and a2.as_string() == ")$":
             T = bm.m_text(m.v)
@@ -166,6 +174,7 @@ contract("helpers.match_on_tokens",
         "bwd_anchor": "implies(not forward and result is not None, m_end(result) == len(m_text(result)) or m_end(result) == len(m_text(result)) - 1)",
         "bwd_no_newline": "implies(not forward and strings_only and NONL(words) and result is not None, not ('\\n' in m_text(result)) and m_end(result) == len(m_text(result)))",
         "regex": "implies(result is not None, m_regex(result) == old(regex))",
+        "nullable_always_matches": "implies(forward and re_nullable(old(regex)), result is not None)",
         "bounded": "implies(result is not None, len(m_text(result)) <= 300 + len(prefix))",
     })
 
@@ -214,7 +223,10 @@ def _regex_lemmas(e, st):
             order.append(z3.ForAll([m], Implies(And(bm.m_ghas(m, S_(g)), bm.m_ghas(m, S_("parenthetical"))),
                                                 bm.m_gend(m, S_(g)) <= bm.m_gstart(m, S_("parenthetical"))),
                                    patterns=[z3.MultiPattern(bm.m_ghas(m, S_(g)), bm.m_ghas(m, S_("parenthetical")))]))
-        return And(head, year, *order)
+        S2 = z3.StringVal
+        always = z3.ForAll([m], Implies(m_regex(m) == _G("SHORT_CITE_ANTECEDENT_REGEX"), bm.m_ghas(m, S2("antecedent"))), patterns=[m_regex(m)])
+        return And(head, year, always, re_nullable(_G("POST_SHORT_CITATION_REGEX")), re_nullable(_G("POST_LAW_CITATION_REGEX")),
+                   re_nullable(_G("POST_JOURNAL_CITATION_REGEX")), *order)
     e.axioms_once("regex_lemmas", mk)
     e.trust("E-RE-LANG lemmas (DESIGN 4.2): pin_cite group starts at the head of POST_{FULL,SHORT,JOURNAL}_CITATION_REGEX matches; "
             "year group is \\d{4}; captured groups end before the parenthetical group starts")
@@ -257,6 +269,8 @@ contract("helpers.extract_pin_cite",
         "pin_inside": "implies(suffix_of(prefix, str(words[index])) and result[0] is not None, result[1] is not None and "
                       "in_window(result[0], ghost.text, ghost.offs[index + 1] - len(prefix), result[1]))",
         "pin_needs_end": "implies(result[0] is not None, result[1] is not None)",
+        # POST_SHORT_CITATION_REGEX matches the empty string, so there is always a match and an end offset
+        "end_made": "result[1] is not None",
     },
     props={"pin_inside": "C17"})
 # ------------------------------------------------------------------------------------------------ closed string lemmas
@@ -387,7 +401,7 @@ def _on_join(e, st, sv, sep, xs):
 @spec("match_groups")
 def _match_groups(e, st, m):
     pat = m.tag[2] if m.tag and len(m.tag) > 2 else None
-    if pat is not None and pat.tag == ("lit", r"(?P<defendant>.*)\s\((?P<year>\d{4})\)$"):
+    if pat is not None and pat.tag == ("global", "DEFENDANT_YEAR_REGEX"):
         from pyvc import cpy_tables
         d = bm.match_group_sv(e, st, m, z3.StringVal("defendant"))
         y = bm.match_group_sv(e, st, m, z3.StringVal("year"))
